@@ -93,38 +93,19 @@ tr!(c13_q_ip4tcp_by_ip6tcp, |s| e().with(Protocol::Ip4(s.a4)).with(Protocol::Tcp
 tr!(c13_q_two_hosts_tail_preserved, |s| e().with(Protocol::Ip4(s.a4)).with(Protocol::Ip4(s.c4)),
     e().with(Protocol::Ip4(s.b4)),
     Some(e().with(Protocol::Ip4(s.b4)).with(Protocol::Ip4(s.c4))));
-#[cfg(feature = "thorough")]
-tr!(c13_t_two_hosts_three_components, |s| e().with(Protocol::Ip4(s.a4)).with(Protocol::Tcp(s.p)).with(Protocol::Ip4(s.c4)),
-    e().with(Protocol::Ip4(s.b4)),
-    Some(e().with(Protocol::Ip4(s.b4)).with(Protocol::Tcp(s.p)).with(Protocol::Ip4(s.c4))));
-#[cfg(feature = "thorough")]
-tr!(c13_t_two_hosts_four_components, |s| e().with(Protocol::Ip4(s.a4)).with(Protocol::Tcp(s.p)).with(Protocol::Ip4(s.c4)).with(Protocol::Tcp(s.r)),
-    e().with(Protocol::Ip4(s.b4)).with(Protocol::Tcp(s.q)),
-    Some(e().with(Protocol::Ip4(s.b4)).with(Protocol::Tcp(s.p)).with(Protocol::Ip4(s.c4)).with(Protocol::Tcp(s.r))));
 tr!(c13_q_observed_host_not_first, |s| e().with(Protocol::Ip4(s.a4)).with(Protocol::Tcp(s.p)),
     e().with(Protocol::Tcp(s.q)).with(Protocol::Ip4(s.b4)),
     None);
 tr!(c13_q_original_without_host, |s| e().with(Protocol::Tcp(s.p)).with(Protocol::Ip4(s.a4)),
     e().with(Protocol::Ip4(s.b4)).with(Protocol::Tcp(s.q)),
     None);
-#[cfg(feature = "thorough")]
-tr!(c13_t_dns_by_ip4, |s| e().with(Protocol::Dns4("x".into())).with(Protocol::Tcp(s.p)),
-    e().with(Protocol::Ip4(s.b4)).with(Protocol::Tcp(s.q)),
-    Some(e().with(Protocol::Ip4(s.b4)).with(Protocol::Tcp(s.p))));
 
-// thorough tier
+// thorough tier (shapes with a DNS string component or three and more components were tried and
+// do not finish: every component read back from the heap-allocated Multiaddr forks symbolic execution)
 #[cfg(feature = "thorough")]
 tr!(c13_t_ip6_by_ip4, |s| e().with(Protocol::Ip6(s.a6)).with(Protocol::Tcp(s.p)),
     e().with(Protocol::Ip4(s.b4)).with(Protocol::Tcp(s.q)),
     Some(e().with(Protocol::Ip4(s.b4)).with(Protocol::Tcp(s.p))));
-#[cfg(feature = "thorough")]
-tr!(c13_t_ip4_by_dns, |s| e().with(Protocol::Ip4(s.a4)).with(Protocol::Tcp(s.p)),
-    e().with(Protocol::Dns("y".into())).with(Protocol::Tcp(s.q)),
-    Some(e().with(Protocol::Dns("y".into())).with(Protocol::Tcp(s.p))));
-#[cfg(feature = "thorough")]
-tr!(c13_t_quic_tail, |s| e().with(Protocol::Ip4(s.a4)).with(Protocol::Udp(s.p)).with(Protocol::QuicV1),
-    e().with(Protocol::Ip6(s.b6)).with(Protocol::Udp(s.q)).with(Protocol::QuicV1),
-    Some(e().with(Protocol::Ip6(s.b6)).with(Protocol::Udp(s.p)).with(Protocol::QuicV1)));
 #[cfg(feature = "thorough")]
 tr!(c13_t_observed_empty, |s| e().with(Protocol::Ip4(s.a4)).with(Protocol::Tcp(s.p)), e(), None);
 #[cfg(feature = "thorough")]
@@ -134,14 +115,6 @@ tr!(c13_t_original_memory, |s| e().with(Protocol::Memory(s.p as u64)), e().with(
 #[cfg(feature = "thorough")]
 tr!(c13_t_observed_circuit_first, |s| e().with(Protocol::Ip4(s.a4)).with(Protocol::Tcp(s.p)),
     e().with(Protocol::P2pCircuit).with(Protocol::Ip4(s.b4)), None);
-#[cfg(feature = "thorough")]
-tr!(c13_t_dns6_by_dns4, |s| e().with(Protocol::Dns6("x".into())).with(Protocol::Tcp(s.p)),
-    e().with(Protocol::Dns4("yy".into())).with(Protocol::Tcp(s.q)),
-    Some(e().with(Protocol::Dns4("yy".into())).with(Protocol::Tcp(s.p))));
-#[cfg(feature = "thorough")]
-tr!(c13_t_two_hosts_ip6_tail, |s| e().with(Protocol::Ip6(s.a6)).with(Protocol::Tcp(s.p)).with(Protocol::Ip6(s.b6)),
-    e().with(Protocol::Ip4(s.b4)),
-    Some(e().with(Protocol::Ip4(s.b4)).with(Protocol::Tcp(s.p)).with(Protocol::Ip6(s.b6))));
 
 #[cfg(verif_replay)]
 include!(env!("VERIF_REPLAY_FILE"));
